@@ -57,6 +57,10 @@ type permOp struct {
 	// exec / validate with a form "sym*" and Decoy: the decoy stands at the LEXICALLY cleaned location
 	// <case>/app/bin/f<p>; DecoyRoot makes it root-controlled (root:root 0755) instead of hostile
 	DecoyRoot bool `json:"decoyroot,omitempty"`
+	// create / symlink / exec: the id lives in the case directory under exactly this file name (names with a space,
+	// `;`, `$`, `|`, `&`, a back-tick); on an exec of an id that is never created it is the configured string itself,
+	// e.g. "f1 --zone 1" (a path plus an inline argument: names no file)
+	Name string `json:"name,omitempty"`
 	// exec / validate: perform the call in a child process of the harness whose real and effective uid (and gid)
 	// is this non-root id (0 = in the harness itself, as root)
 	Euid int `json:"euid,omitempty"`
@@ -464,6 +468,9 @@ func runPerm(workDir string, n int, in permIn) ([]permObs, string) {
 	// where every id lives (fixed by the first create/symlink operation that names it)
 	loc := map[int]string{}
 	for _, op := range in.Ops {
+		if op.Name != "" {
+			loc[op.P] = filepath.Join(dir, op.Name)
+		}
 		if (op.K == "create" || op.K == "symlink") && op.Where != "" {
 			switch op.Where {
 			case "cwd":
@@ -1057,6 +1064,26 @@ func init() {
 						}
 						ops = append(ops, permOp{K: "validate", P: t, Cfg: v, Euid: 65534})
 						add([]string{"non-root-euid", "cfg=" + v, "owner=" + itoa(a[0])}, ops...)
+					}
+				}
+			}
+			// (d7) the configured `exec` string contains a space, `;`, `$`, `|`, `&` or a back-tick: it names exactly the file
+			// of that name (which is checked and started), never a command line; a hostile f1 stands where a shell
+			// would end up; "f1 --zone 1" (path plus inline argument) names no file at all: refused, nothing runs
+			for api := 1; api <= 5; api++ {
+				for _, nm := range []string{"f1 x", "f1;x", "f1$x", "f1|x", "f1&x", "f1`x`", "f1 --zone 1"} {
+					for _, real := range [][3]int{{0, 0, 0o755}, {4242, 0, 0o755}} {
+						add([]string{"metachar", "api=" + itoa(api), "name=" + nm},
+							create(1, 4242, 4242, 0o777),
+							permOp{K: "create", P: 5, U: real[0], G: real[1], M: real[2], Name: nm},
+							permOp{K: "exec", P: 5, Api: api})
+					}
+				}
+				for _, hostile := range [][3]int{{4242, 4242, 0o777}, {0, 4242, 0o775}, {0, 0, 0o755}} {
+					for _, nm := range []string{"f1 --zone 1", "f1 ; true", "f1 $HOME", "f1 | cat"} {
+						add([]string{"metachar", "inline-argument", "api=" + itoa(api)},
+							create(1, hostile[0], hostile[1], hostile[2]),
+							permOp{K: "exec", P: 7, Api: api, Name: nm})
 					}
 				}
 			}
